@@ -163,6 +163,34 @@ def rewards(vc):
                                                   vc.eq(cb.calculate(Z), np.zeros((n, m)))))
 
 
+@obligation("C07", "reward_ctor", ensures=["O-C07-reward.configured-delta", "O-C07-reward.ctor-indices"],
+            fns=[RW + "CostConstrainedReward.__init__", RW + "CombinedReward.__init__", RW + "CostConstrainedReward.fromConfig", RW + "CombinedReward.fromConfig", RB + "Reward.__init__"], mode="R",
+            note="the weight delta used by the documented combination is the one the caller / the configuration gives, for every delta in [0, 1] (both ends included: delta = 0 is 'sensor cost "
+                 "only'); the constructor files each metric under its own type, in the order given")
+def reward_ctor(vc):
+    from types import SimpleNamespace as NS
+    from resonaate.common.labels import MetricTypeLabel as L
+    from resonaate.tasking.metrics.metric_base import Metric
+    delta = vc.real("delta", 0, 1, special=[0.0, 1.0, 0.85])
+    kinds4 = [L.SENSOR, L.INFORMATION, L.STABILITY, L.TARGET]
+    for name, K in (("CostConstrainedReward", 3), ("CombinedReward", 4)):
+        mets = [type(f"Met{k}", (Metric,), {"METRIC_TYPE": kinds4[k], "calculate": lambda self, e, s: 0.0})() for k in range(K)]
+        for via_config in (False, True):
+            if vc.symbolic:
+                C = vc.cls(RW + name)
+                if via_config:
+                    rw = C.fromConfig(mets, NS(delta=delta, name=name, metrics=[]))
+                else:
+                    rw = object.__new__(C)
+                    C.__init__(rw, mets, delta=delta)
+            else:
+                C = vc.fn(RW + name)
+                rw = C.fromConfig(mets, NS(delta=delta, name=name, metrics=[])) if via_config else C(mets, delta=delta)
+            vc.ensure("O-C07-reward.configured-delta", vc.close(rw._delta, delta, 0.0))
+            idx = rw._metric_type_indices
+            vc.ensure("O-C07-reward.ctor-indices", all(list(idx[kinds4[k]]) == [k] for k in range(K)) and len(idx) == K)
+
+
 def _norm_harness(shape, tier):
     n, m, K = shape
     S = f"[{n}x{m}x{K}]"
